@@ -128,7 +128,7 @@ def run(ctx):
     blocks = []
     exps = []
     samples = []
-    n_sched = ctx.budget(300, 5000)
+    n_sched = ctx.budget(1500, 20000)
     for k in range(n_sched):
         gr = gg.grammar(depth=3)
         strings = G.strings_for(rng, gr, 3, maxlen=8)
@@ -166,7 +166,7 @@ def run(ctx):
     sys.setswitchinterval(1e-6)
     stress_evals = 0
     try:
-        for k in range(ctx.budget(5, 200)):
+        for k in range(ctx.budget(25, 400)):
             gr = gg.grammar(depth=3)
             strings = G.strings_for(rng, gr, 4, maxlen=10)
             reqs = [(rng.choice(["lparse", "parse"]), rng.choice(strings), 0) for _ in range(16)]
@@ -200,7 +200,7 @@ def run(ctx):
         sys.setswitchinterval(old)
     # (c) generator interleavings / abandonment
     gen_evals = 0
-    for k in range(ctx.budget(150, 3000)):
+    for k in range(ctx.budget(600, 6000)):
         gr = gg.grammar(depth=3)
         strings = G.strings_for(rng, gr, 3, maxlen=8)
         reqs = [("lparse", rng.choice(strings), 0) for _ in range(3)]
